@@ -90,7 +90,10 @@ func orphanScenario(w *World, p *Plan, rec *Record) {
 		if hist[i].Weight != hist[j].Weight {
 			return hist[i].Weight < hist[j].Weight
 		}
-		return hist[i].CreatedAt.Before(hist[j].CreatedAt)
+		if !hist[i].CreatedAt.Equal(hist[j].CreatedAt) {
+			return hist[i].CreatedAt.Before(hist[j].CreatedAt)
+		}
+		return string(hist[i].Hash[:]) < string(hist[j].Hash[:])
 	})
 	if len(hist) < 2 {
 		rec.Infra = ""
